@@ -202,6 +202,8 @@ class P:
             e = self.expr()
             self.eat(";")
             return ("delete", e)
+        if tok in ("bool", "int", "uint", "char", "static", "Iterator", "Array", "auto"):
+            raise Refuse(f"{self.fn}: a local declaration of type `{tok}` is outside the translated subset (locals are T*, const T*, usize)")
         if tok in ("while", "do", "switch", "goto", "break", "continue", "try", "throw"):
             raise Refuse(f"{self.fn}: statement `{tok}` is outside the translated subset")
         if self.is_decl():
